@@ -80,7 +80,9 @@ pub fn exec(case: &str) -> Exec {
                 Read::Panic(m) => ex.failures.push(feat(Failure::new("reader-panicked", m.chars().take(160).collect::<String>()))),
                 Read::Err(d) => ex.failures.push(feat(Failure::new("valid-document-rejected", diags_tok(d)))),
                 Read::Ok(p, _) => match body(p) {
-                    Some(got) => if got != want { ex.failures.push(feat(Failure::new("read-differs-from-what-the-data-items-state", first_diff(&want, &got)))); },
+                    Some(got) => if got == want && !nearest_doubles(p) {
+                        ex.failures.push(feat(Failure::new("number-read-is-not-the-nearest-double-of-its-token", "")));
+                    } else if got != want { ex.failures.push(feat(Failure::new("read-differs-from-what-the-data-items-state", first_diff(&want, &got)))); },
                     None => ex.failures.push(feat(Failure::new("read-values-are-not-the-stated-decimals", ""))),
                 },
             }
@@ -110,6 +112,16 @@ pub fn exec(case: &str) -> Exec {
         _ => panic!("unknown c02 case"),
     }
     ex
+}
+
+/// every number of the structure is the correctly rounded double of its (micro-unit) decimal: the generated
+/// tokens are exact multiples of 1e-6 and `k as f64 / 1e6` is the nearest double of that decimal
+fn nearest_doubles(p: &pdbtbx::PDB) -> bool {
+    let ok = |v: f64| { let k = (v * 1e6).round(); v == k / 1e6 };
+    p.atoms().all(|a| ok(a.x()) && ok(a.y()) && ok(a.z()) && ok(a.occupancy()) && ok(a.b_factor()) && a.anisotropic_temperature_factors().map_or(true, |t| t.iter().flatten().all(|v| ok(*v))))
+        && p.unit_cell.as_ref().map_or(true, |c| ok(c.a()) && ok(c.b()) && ok(c.c()) && ok(c.alpha()) && ok(c.beta()) && ok(c.gamma()))
+        && p.scale.iter().chain(p.origx.iter()).all(|m| m.matrix().iter().flatten().all(|v| ok(*v)))
+        && p.mtrix().all(|m| m.transformation.matrix().iter().flatten().all(|v| ok(*v)))
 }
 
 pub fn first_diff(a: &str, b2: &str) -> String {
